@@ -7,6 +7,7 @@ CONSTANTS
   MaxSteps = 5
   Forms = {"take", "read", "take_next"}
   Kinds = {"V", "X"}
+  Retransmit = FALSE
   GenK = 3
 CONSTRAINT Bound
 VIEW View
